@@ -3,6 +3,7 @@ package props
 import (
 	"context"
 	"fmt"
+	"strings"
 	"sync"
 	"testing"
 	"testing/synctest"
@@ -275,6 +276,14 @@ func runSyncSched(t *testing.T, s SyncSchedScenario) (res Result) {
 				// whoever of the concurrent callers and handlers got to apply it first
 				if o.Head < o.TipBefore || o.Head > e.getter.Tip() {
 					res.failf("%s: Syncer.Head returned height %d, the trusted peers were at %d when it was called and are at %d now", tag, o.Head, o.TipBefore, e.getter.Tip())
+					return
+				}
+			case a.Kind == "gossip" && a.Adv == "":
+				// the chain's own header, with an honest getter for the intermediates: it is taken, or it is
+				// known already - never refused for another reason (e.g. because another candidate is being
+				// processed at that moment)
+				if o.Err != "" && !strings.Contains(o.Err, "known header") {
+					res.failf("%s: the chain's header %d was refused although it is verifiable: %s", tag, o.Head, o.Err)
 					return
 				}
 			case a.Adv == "forged":
